@@ -196,6 +196,46 @@ FIXED = [
 ]
 
 
+def overload_programs():
+    """user-defined operator overloads are selected by the exact-type rule (type aliases transparent, type definitions
+    opaque), the built-in meaning applies otherwise: (label, source, expected stdout)"""
+    H = ('Binde "Duden/Ausgabe" ein.\nWir definieren eine Meter als eine Zahl.\nWir definieren eine Elle als eine Zahl.\nWir nennen eine Zahl auch eine Strecke.\n'
+         'Wir nennen eine Meter auch eine Distanz.\n')
+    V = ('Die Zahl z1 ist 70.\nDie Zahl z2 ist 8.\nDie Strecke s1 ist 70.\nDie Strecke s2 ist 8.\nDie Meter m1 ist 70 als Meter.\nDie Meter m2 ist 8 als Meter.\n'
+         'Die Elle e1 ist 70 als Elle.\nDie Elle e2 ist 8 als Elle.\nDie Distanz d1 ist 70 als Meter.\nDie Distanz d2 ist 8 als Meter.\n')
+    under = {"Zahl": "Zahl", "Strecke": "Zahl", "Meter": "Meter", "Elle": "Elle", "Distanz": "Meter"}   # GetUnderlying
+    var = {"Zahl": "z", "Strecke": "s", "Meter": "m", "Elle": "e", "Distanz": "d"}
+    binops = {"plus": ("%s plus %s", 78), "minus": ("%s minus %s", 62), "mal": ("%s mal %s", 560), "modulo": ("%s modulo %s", 6),
+              "kleiner als": ("%s kleiner als %s ist", None), "gleich": ("%s gleich %s ist", None), "hoch": ("%s hoch %s", None),
+              "logisch und": ("%s logisch und %s", 0), "größer als, oder": ("%s größer als, oder %s ist", None)}
+    unops = {"Betrag": ("der Betrag von %s", 70), "unäres minus": ("-%s", -70), "logisch nicht": ("logisch nicht %s", -71)}
+    out = []
+    k = 0
+    for T in ("Meter", "Strecke", "Zahl", "Distanz"):
+        for op, (tmpl, builtin) in list(binops.items()) + list(unops.items()):
+            k += 1
+            sentinel = 1000 + k
+            binary = op in binops
+            ret_bool = builtin is None and binary
+            if binary:
+                decl = ('Die Funktion ueberladen mit den Parametern a und b vom Typ %s und %s, gibt %s zurück, macht:\n\tGib %s zurück.\nUnd überlädt den "%s" Operator.\n\n'
+                        % (T, T, "einen Text" if ret_bool else "eine Zahl", '"überladen"' if ret_bool else str(sentinel), op))
+            else:
+                decl = ('Die Funktion ueberladen mit dem Parameter a vom Typ %s, gibt eine Zahl zurück, macht:\n\tGib %d zurück.\nUnd überlädt den "%s" Operator.\n\n' % (T, sentinel, op))
+            body, exp = "", ""
+            for U in ("Zahl", "Strecke", "Meter", "Elle", "Distanz"):
+                e = tmpl % ((var[U] + "1", var[U] + "2") if binary else (var[U] + "1",))
+                if under[U] == under[T]:
+                    body += "Schreibe (%s) auf eine Zeile.\n" % e
+                    exp += "überladen\n" if ret_bool else "%d\n" % sentinel
+                elif under[U] == "Zahl":
+                    body += "Schreibe (%s) auf eine Zeile.\n" % e
+                    exp += ("%s\n" % {"kleiner als": "falsch", "gleich": "falsch", "hoch": "576480100000000", "größer als, oder": "wahr"}[op]) if ret_bool else "%d\n" % builtin
+                # a type definition without an overload of its own has no built-in meaning: not used
+            out.append(("overload:%s:%s" % (op, T), H + decl + V + body, exp))
+    return out
+
+
 def span_stage(res, harness, model, rng, quick, st):
     """which tokens the parser binds to which placeholder name: FuncCall.Args against DDP.AliasMatch"""
     from .. import aliasspans as A
@@ -372,9 +412,10 @@ def check(res, tier):
                               {"program": src, "expected_stdout": exp, "implementation": r.as_dict()})
     # (2b) argument spans and binding by name
     span_stage(res, harness, model, rng, quick, st)
-    # (3) fixed programs
-    fixed = pipeline.farm(ddp, [({"main.ddp": s}, pipeline.Config(opt=1), {}) for _, s, _ in FIXED])
-    for (name, src, want), r in zip(FIXED, fixed):
+    # (3) fixed programs, operator overloads over aliases and type definitions
+    fixed_all = FIXED + overload_programs()
+    fixed = pipeline.farm(ddp, [({"main.ddp": s}, pipeline.Config(opt=1), {}) for _, s, _ in fixed_all])
+    for (name, src, want), r in zip(fixed_all, fixed):
         res.evaluations += 1
         res.nontrivial("fixed:" + name)
         if r.cls != "ok" or r.stdout != want:
